@@ -19,9 +19,11 @@ CONSTANTS ValSets,      \* set of functions [subset of validators -> power]
           Delay,        \* delay period for proofs
           TLNum, TLDen  \* trust level
 
-VARIABLES cons,    \* cons[h] = [time, root, next]  consensus states
-          meta,    \* meta[h] = processed time
-          latest,  \* latest height of the client state
+(* A height is a pair (revision, block number); it is written as the key rev * 100 + number, so that the numeric   *)
+(* order of keys is the order of heights (revision first).                                                       *)
+VARIABLES cons,    \* cons[k] = [time, root, next]  consensus states, k a height key
+          meta,    \* meta[k] = processed time
+          latest,  \* latest height (key) of the client state
           now,     \* block time of the host chain
           last
 stateVars == <<cons, meta, latest, now>>
@@ -29,6 +31,8 @@ vars == <<stateVars, last>>
 
 (* model-checking values *)
 MCValSets == { [a |-> 1, b |-> 1, c |-> 1], [a |-> 2, b |-> 1], [c |-> 1] }
+MCValSetsSmall == { [a |-> 1, b |-> 1, c |-> 1], [c |-> 1] }
+MCRoots == {"r1"}
 MCBound == Cardinality(DOMAIN cons) <= 3
 Roots == {"r1", "r2"}
 GenValSets == { [a |-> 1, b |-> 1, c |-> 1], [a |-> 2, b |-> 1], [c |-> 1], [a |-> 1, b |-> 2, c |-> 3], [b |-> 1, c |-> 1], [a |-> 3, c |-> 1] }
@@ -41,8 +45,12 @@ Signed(vs, signers) == Sum(vs, signers \cap DOMAIN vs)
 (* only validators of the header's own set have a signature in its commit *)
 Eff(hd) == hd.signers \cap DOMAIN hd.vals
 
+RevOf(k) == k \div 100
+NumOf(k) == k % 100
+Keys == {r * 100 + h : r \in {0, 1}, h \in Heights \cup {1}}
 Header == [height : Heights, rev : {0, 1}, time : Times, vals : ValSets, next : ValSets, signers : SUBSET UNION {DOMAIN v : v \in ValSets},
-           th : Heights \cup {1}, tvals : ValSets, root : Roots]
+           th : Keys \cup {199}, tvals : ValSets, root : Roots]     \* 199: a height the client never stored
+Key(hd) == hd.rev * 100 + hd.height
 
 Expired(t) == t + TP <= now                      \* IsExpired / HeaderExpired: !expiration.After(now)
 Active == latest \in DOMAIN cons /\ ~Expired(cons[latest].time)
@@ -52,13 +60,13 @@ Accept(hd) ==
   /\ Active                                                          \* keeper: Status must be Active
   /\ hd.th \in DOMAIN cons                                           \* trusted consensus state exists
   /\ hd.tvals = cons[hd.th].next                                     \* checkTrustedHeader
-  /\ hd.rev = 0                                                      \* same revision as the trusted height
-  /\ hd.height > hd.th
+  /\ hd.rev = RevOf(hd.th)                                          \* same revision as the trusted height
+  /\ hd.height > NumOf(hd.th)
   /\ ~Expired(cons[hd.th].time)                                      \* HeaderExpired(trusted)
   /\ hd.time > cons[hd.th].time                                      \* verifyNewHeaderAndVals
   /\ hd.time < now + Drift
   /\ Signed(hd.vals, Eff(hd)) * 3 > Total(hd.vals) * 2                \* +2/3 of the header's own set
-  /\ IF hd.height = hd.th + 1
+  /\ IF hd.height = NumOf(hd.th) + 1
      THEN hd.vals = cons[hd.th].next                                 \* VerifyAdjacent
      ELSE Signed(hd.tvals, Eff(hd)) * TLDen > Total(hd.tvals) * TLNum      \* VerifyNonAdjacent: trust level of the trusted set
 
@@ -70,10 +78,19 @@ Restrict(f, S) == [x \in S |-> f[x]]
 UpdateEff(hd) ==
   IF ~Accept(hd) THEN UNCHANGED stateVars
   ELSE LET keepC == (DOMAIN cons) \ PruneSet  keepM == (DOMAIN meta) \ PruneSet IN
-       /\ cons' = (hd.height :> [time |-> hd.time, root |-> hd.root, next |-> hd.next]) @@ Restrict(cons, keepC)
-       /\ meta' = (hd.height :> now) @@ Restrict(meta, keepM)
-       /\ latest' = IF hd.height > latest THEN hd.height ELSE latest
+       /\ cons' = (Key(hd) :> [time |-> hd.time, root |-> hd.root, next |-> hd.next]) @@ Restrict(cons, keepC)
+       /\ meta' = (Key(hd) :> now) @@ Restrict(meta, keepM)
+       /\ latest' = IF Key(hd) > latest THEN Key(hd) ELSE latest
        /\ UNCHANGED now
+
+(* Governance installs a new client state and consensus state (UpgradeClientProposal), typically for the           *)
+(* counterparty's next revision: a consensus state at block h of revision r with the current time.  The consensus   *)
+(* states already stored stay; the latest height becomes (r, h) whatever it was (governance is trusted with that).  *)
+UpgradeOK == TRUE
+UpgradeEff(r, h, nx, rt) ==
+  /\ cons' = (r * 100 + h :> [time |-> now, root |-> rt, next |-> nx]) @@ cons
+  /\ meta' = (r * 100 + h :> now) @@ meta
+  /\ latest' = r * 100 + h /\ UNCHANGED now
 
 TickEff(d) == now' = now + d /\ UNCHANGED <<cons, meta, latest>>
 
@@ -85,8 +102,9 @@ Init == /\ cons = (1 :> [time |-> 0, root |-> "r1", next |-> InitVals]) /\ meta 
         /\ last = [act |-> "Init", res |-> "ok"]
 Res(ok) == IF ok THEN "ok" ELSE "err"
 Next ==
-  \/ \E hd \in Header : UpdateEff(hd) /\ last' = [act |-> "Update", res |-> Res(Accept(hd)), hd |-> hd]
+  \/ \E hd \in Header : hd.th \in (DOMAIN cons) \cup {199} /\ UpdateEff(hd) /\ last' = [act |-> "Update", res |-> Res(Accept(hd)), hd |-> hd]
   \/ \E d \in 1..2 : now + d <= MaxNow /\ TickEff(d) /\ last' = [act |-> "Tick", res |-> "ok", d |-> d]
+  \/ \E r \in {0, 1}, h \in Heights, nx \in ValSets, rt \in Roots : UpgradeEff(r, h, nx, rt) /\ last' = [act |-> "Upgrade", res |-> "ok", rev |-> r, h |-> h, next |-> nx, root |-> rt]
 Spec == Init /\ [][Next]_vars
 
 -----------------------------------------------------------------------------
@@ -96,13 +114,13 @@ Sound(hd) ==
   /\ hd.th \in DOMAIN cons /\ hd.tvals = cons[hd.th].next
   /\ Signed(hd.tvals, Eff(hd)) * TLDen > Total(hd.tvals) * TLNum
   /\ Signed(hd.vals, Eff(hd)) * 3 > Total(hd.vals) * 2
-  /\ hd.height > hd.th /\ hd.rev = 0
+  /\ hd.height > NumOf(hd.th) /\ hd.rev = RevOf(hd.th)
   /\ cons[hd.th].time + TP > now /\ hd.time < now + Drift /\ hd.time > cons[hd.th].time
   /\ Active
 AcceptedIsSound == [][(last'.act = "Update" /\ last'.res = "ok") => Sound(last'.hd)]_vars
 StoresExactly == [][(last'.act = "Update" /\ last'.res = "ok") =>
-                     LET hd == last'.hd IN cons'[hd.height] = [time |-> hd.time, root |-> hd.root, next |-> hd.next] /\ meta'[hd.height] = now]_vars
-LatestMonotone == [][latest' >= latest]_vars
+                     LET hd == last'.hd IN cons'[Key(hd)] = [time |-> hd.time, root |-> hd.root, next |-> hd.next] /\ meta'[Key(hd)] = now]_vars
+LatestMonotone == [][last'.act = "Update" => latest' >= latest]_vars
 RejectChangesNothing == [][last'.res = "err" => UNCHANGED stateVars]_vars
 ExpiredAcceptsNothing == [][(last'.act = "Update" /\ ~Active) => last'.res = "err"]_vars
 MetaForCons == \A h \in DOMAIN cons : h \in DOMAIN meta
